@@ -21,9 +21,9 @@
       loops of esds run on fuel computed from their own (clamped) size, not on the reader's.
     - [bytes_ok data = true]: the list elements are bytes; [lenN data < 2^62]: positions are
       computed in [u64] by the Rust code.  The size argument of [read_header] is the true length.
-    - the constants are explicit numerals: [open_A = 71501198314966116],
-      [open_B = 280396856161080].  They are generous (the crude constant bound of the hvcC arrays,
-      about 1.1e12, is doubled or quadrupled at each of the eight nesting levels).
+    - the constants are explicit numerals: [open_A = 1224006895716], [open_B = 4800051000].  They
+      are generous (the constant bound of avcC, 18 750 000 for its up to 288 NAL units of up to
+      65 535 bytes, is doubled or quadrupled at each of the eight nesting levels).
     - what the meters do NOT see: the CPU work of the pure sample-table lookups that precede the
       seek of [read_sample] (they are total functions of the parsed tables in the model, finding D53
       is about their cost) and of the accessors.  The sample read is therefore stated for the stream
